@@ -43,6 +43,10 @@
          been reaped); handing the terminal back to the shell's own group
          always succeeds.
     Pids are supplied by the launch action (the environment chooses them).
+      K8 the signal mask is inherited over fork and exec; a blocked SIGTSTP is
+         not delivered (it stays pending), so Ctrl-Z does not stop a process
+         that started with the mask of [give_terminal_to] (SIGTSTP, SIGTTIN,
+         SIGTTOU, SIGCHLD) still blocked;
       K7 Ctrl-C / Ctrl-Z / Ctrl-\ typed while the terminal is in cooked mode send
          SIGINT / SIGTSTP / SIGQUIT to the terminal's foreground group. The shell
          ignores all three (main.rs; SIGINT since /repo 4ca5f35, children restore
@@ -61,7 +65,10 @@ Inductive pstate := PRun | PStop | PZomb (signaled : bool) (code : Z) | PGone.
 Inductive note := NNone | NStop (sig : Z) | NCont.
 Inductive pend := PdSig (sig : Z) | PdExit (code : Z).
 
-Record proc := mkproc { ppid : Z; ppgid : Z; pst : pstate; pnote : note; ppend : option pend }.
+(** [pblk]: SIGTSTP / SIGTTIN / SIGTTOU / SIGCHLD are blocked in the process: the
+    signal mask is inherited over fork and exec, so a child starts with the
+    mask the shell had when it forked (K8) *)
+Record proc := mkproc { ppid : Z; ppgid : Z; pst : pstate; pnote : note; ppend : option pend; pblk : bool }.
 
 Definition SIGINT := 2.
 Definition SIGKILL := 9.
@@ -77,32 +84,34 @@ Definition end_of (d : pend) : pstate :=
 
 (** K2 *)
 Definition deliver (sig : Z) (p : proc) : proc :=
+  if pblk p && (sig =? SIGTSTP) then p   (* K8: blocked, stays pending: Ctrl-Z does nothing *)
+  else
   match pst p with
   | PRun =>
-      if is_stop_sig sig then mkproc (ppid p) (ppgid p) PStop (NStop sig) (ppend p)
+      if is_stop_sig sig then mkproc (ppid p) (ppgid p) PStop (NStop sig) (ppend p) (pblk p)
       else if sig =? SIGCONT then p
-      else mkproc (ppid p) (ppgid p) (PZomb true sig) NNone None
+      else mkproc (ppid p) (ppgid p) (PZomb true sig) NNone None (pblk p)
   | PStop =>
-      if sig =? SIGKILL then mkproc (ppid p) (ppgid p) (PZomb true sig) NNone None
+      if sig =? SIGKILL then mkproc (ppid p) (ppgid p) (PZomb true sig) NNone None (pblk p)
       else if sig =? SIGCONT then
         match ppend p with
-        | Some d => mkproc (ppid p) (ppgid p) (end_of d) NNone None
-        | None => mkproc (ppid p) (ppgid p) PRun NCont None
+        | Some d => mkproc (ppid p) (ppgid p) (end_of d) NNone None (pblk p)
+        | None => mkproc (ppid p) (ppgid p) PRun NCont None (pblk p)
         end
       else if is_stop_sig sig then p
       else match ppend p with
            | Some _ => p
-           | None => mkproc (ppid p) (ppgid p) PStop (pnote p) (Some (PdSig sig))
+           | None => mkproc (ppid p) (ppgid p) PStop (pnote p) (Some (PdSig sig)) (pblk p)
            end
   | _ => p
   end.
 
 Definition do_exit (code : Z) (p : proc) : proc :=
   match pst p with
-  | PRun => mkproc (ppid p) (ppgid p) (PZomb false code) NNone None
+  | PRun => mkproc (ppid p) (ppgid p) (PZomb false code) NNone None (pblk p)
   | PStop => match ppend p with
              | Some _ => p
-             | None => mkproc (ppid p) (ppgid p) PStop (pnote p) (Some (PdExit code))
+             | None => mkproc (ppid p) (ppgid p) PStop (pnote p) (Some (PdExit code)) (pblk p)
              end
   | _ => p
   end.
@@ -128,13 +137,13 @@ Fixpoint next_status (ps : list proc) : option (ev * list proc) :=
       match pst p with
       | PZomb sg c =>
           Some (if sg then Signaled (ppid p) c else Exited (ppid p) c,
-                mkproc (ppid p) (ppgid p) PGone NNone None :: r)
+                mkproc (ppid p) (ppgid p) PGone NNone None (pblk p) :: r)
       | PStop => match pnote p with
-                 | NStop s => Some (StoppedE (ppid p) s, mkproc (ppid p) (ppgid p) PStop NNone (ppend p) :: r)
+                 | NStop s => Some (StoppedE (ppid p) s, mkproc (ppid p) (ppgid p) PStop NNone (ppend p) (pblk p) :: r)
                  | _ => skip
                  end
       | PRun => match pnote p with
-                | NCont => Some (Continued (ppid p), mkproc (ppid p) (ppgid p) PRun NNone (ppend p) :: r)
+                | NCont => Some (Continued (ppid p), mkproc (ppid p) (ppgid p) PRun NNone (ppend p) (pblk p) :: r)
                 | _ => skip
                 end
       | PGone => skip
@@ -270,79 +279,123 @@ Definition poll (report : bool) (k : core) : core :=
   end.
 
 (** ---------- shell side: the terminal *)
-Inductive via := VLaunch (term_given : bool) | VFg.
-Inductive mode := AtPrompt | Waiting (gid : Z) (pids : list Z) (settled : list Z) (v : via).
+(** the commands of one typed line, separated by [;] (execute.rs run_command_line
+    runs them in order; main.rs polls once after the whole line). [&&] / [||] are
+    not modelled. *)
+Inductive cmd :=
+| CLaunch (pids : list Z) (bg : bool)      (* a pipeline of external programs *)
+| CFg (arg : option Z) (pick : Z)
+| CBg (arg : option Z) (pick : Z)
+| CJobs
+| CBuiltin.                                (* a builtin that touches neither jobs nor terminal *)
 
-(** [gh] is a ghost: the job-table operations performed so far, as a history
-    of C06's model ([Jobs.op]); [wevs] the statuses the current foreground wait
-    has consumed so far. Nothing reads them; Proofs/TermSim.v shows that the
-    shell value is [Jobs.run gh]. The mapping:
+Inductive via := VLaunch (term_given : bool) | VFg.
+(** [Between rest]: the shell is between two commands of a line ([rest] still to
+    run); never the mode after a whole [step]. [Waiting .. rest]: blocked in
+    wait_fg_job, [rest] are the commands of the line after this one. *)
+Inductive mode :=
+| AtPrompt
+| Between (rest : list cmd)
+| Waiting (gid : Z) (pids : list Z) (settled : list Z) (v : via) (rest : list cmd).
+
+Definition rest_of (m : mode) : list cmd :=
+  match m with AtPrompt => [] | Between r => r | Waiting _ _ _ _ r => r end.
+
+(** [smask]: SIGTSTP / SIGTTIN / SIGTTOU / SIGCHLD are blocked in the shell (false
+    initially: nothing of main.rs blocks them while CICADA_ENABLE_SIG_HANDLER is
+    unset). [gh] is a ghost: the job-table operations performed so far, as a
+    history of C06's model ([Jobs.op]); [wevs] the statuses the current
+    foreground wait has consumed so far. Nothing reads the ghosts;
+    Proofs/TermSim.v shows that the shell value is [Jobs.run gh]. The mapping:
       launch of a pipeline (isatty)        Launch pid0 pids bg
       a foreground wait, when it returns   Wait gid pids (all statuses it consumed, in order)
       the poll at the end of a line, the
       poll of an empty line, the poll
       inside [jobs]                        Poll (the statuses drained from the kernel; none when the table is empty)
       fg / bg                              no C06 operation (they change the table themselves) *)
-Record st := mkst { k : core; md : mode; owner : Z; gh : list op; wevs : list ev }.
+Record st := mkst { k : core; md : mode; owner : Z; smask : bool; gh : list op; wevs : list ev }.
 
 Record cfg := mkcfg { c_sh : Z; c_hasterm : bool; c_isatty : bool }.
 
-(** main.rs: the poll after every line, then the prompt *)
-Definition end_of_line (k : core) (ow : Z) (g : list op) : st :=
-  mkst (poll true k) AtPrompt ow (g ++ [Poll (fst (poll_evs k))]) [].
+(** shell.rs give_terminal_to(gid): block the four signals, tcsetpgrp(1, gid)
+    (outcome [ok], K6), put the saved mask back -- on both outcomes.
+    Returns (given, owner afterwards, mask afterwards). *)
+Definition give_terminal_to (ok : bool) (gid ow : Z) (m : bool) : bool * Z * bool :=
+  let old_mask := m in
+  let blocked := true in                      (* pthread_sigmask(SIG_BLOCK, {TSTP,TTIN,TTOU,CHLD}, &old_mask) *)
+  let ow' := if ok then gid else ow in        (* tcsetpgrp(1, gid) *)
+  let restored := if blocked then old_mask else old_mask in   (* pthread_sigmask(SIG_SETMASK, &old_mask) *)
+  (ok, ow', restored).
+
+(** main.rs: the poll after the whole line, then the prompt *)
+Definition end_of_line (k : core) (ow : Z) (m : bool) (g : list op) : st :=
+  mkst (poll true k) AtPrompt ow m (g ++ [Poll (fst (poll_evs k))]) [].
+
+(** on to the next command of the line *)
+Definition next (k : core) (ow : Z) (m : bool) (g : list op) (rest : list cmd) : st :=
+  mkst k (Between rest) ow m g [].
 
 (** after wait_fg_job returned: run_proc hands the terminal back iff term_given,
-    fg.rs hands it back always; then main.rs polls and prompts *)
-Definition finish (c : cfg) (k : core) (v : via) (ow : Z) (g : list op) : st :=
-  end_of_line k (match v with VFg => c_sh c | VLaunch tg => if tg then c_sh c else ow end) g.
+    fg.rs hands it back always (to the shell's own group: always succeeds, K6) *)
+Definition finish (c : cfg) (k : core) (v : via) (ow : Z) (m : bool) (g : list op) (rest : list cmd) : st :=
+  let back := match v with VFg => true | VLaunch tg => tg end in
+  if back then
+    let '(_, ow', m') := give_terminal_to true (c_sh c) ow m in next k ow' m' g rest
+  else next k ow m g rest.
 
 Fixpoint settle (c : cfg) (fuel : nat) (s : st) : st :=
   match fuel with
   | O => s
   | S f =>
       match md s with
-      | AtPrompt => s
-      | Waiting gid pids w v =>
+      | Waiting gid pids w v rest =>
           match next_status (procs (k s)) with
           | Some (e, ps) =>
               let '(k', w') := wait_body (set_procs (k s) ps) gid pids w e in
               if negb (is_cont e) && (length pids <=? length w')%nat
-              then finish c k' v (owner s) (gh s ++ [Wait gid pids (wevs s ++ [e])])
-              else settle c f (mkst k' (Waiting gid pids w' v) (owner s) (gh s) (wevs s ++ [e]))
+              then finish c k' v (owner s) (smask s) (gh s ++ [Wait gid pids (wevs s ++ [e])]) rest
+              else settle c f (mkst k' (Waiting gid pids w' v rest) (owner s) (smask s) (gh s) (wevs s ++ [e]))
           | None =>
               (* K4: waitpid fails with ECHILD, the loop breaks *)
-              if all_gone (procs (k s)) then finish c (k s) v (owner s) (gh s ++ [Wait gid pids (wevs s)]) else s
+              if all_gone (procs (k s))
+              then finish c (k s) v (owner s) (smask s) (gh s ++ [Wait gid pids (wevs s)]) rest
+              else s
           end
+      | _ => s
       end
   end.
 
 Definition settle_all (c : cfg) (s : st) : st := settle c (S (length (procs (k s)))) s.
 
-Definition enter_wait (c : cfg) (k : core) (gid : Z) (pids : list Z) (v : via) (ow : Z) (g : list op) : st :=
+Definition enter_wait (c : cfg) (k : core) (gid : Z) (pids : list Z) (v : via) (ow : Z) (m : bool)
+           (g : list op) (rest : list cmd) : st :=
   match pids with
-  | [] => finish c k v ow (g ++ [Wait gid [] []])
-  | _ => settle_all c (mkst k (Waiting gid pids [] v) ow g [])
+  | [] => finish c k v ow m (g ++ [Wait gid [] []]) rest
+  | _ => settle_all c (mkst k (Waiting gid pids [] v rest) ow m g [])
   end.
 
-(** the children of one launch (K5): every stage is in the group of stage 0 *)
-Definition stages (p0 : Z) (pids : list Z) : list proc :=
-  map (fun p => mkproc p p0 PRun NNone None) pids.
+(** the children of one launch: every stage is in the group of stage 0 (K5) and
+    starts with the signal mask the shell has at the fork (K8) *)
+Definition stages (p0 : Z) (m : bool) (pids : list Z) : list proc :=
+  map (fun p => mkproc p p0 PRun NNone None m) pids.
 
-Definition launch (c : cfg) (s : st) (pids : list Z) (bg : bool) : st :=
+Definition launch (c : cfg) (s : st) (pids : list Z) (bg : bool) (rest : list cmd) : st :=
   match pids with
-  | [] => s
-  | p0 :: rest =>
-      let ps := procs (k s) ++ stages p0 (p0 :: rest) in
+  | [] => next (k s) (owner s) (smask s) (gh s) rest
+  | p0 :: _ =>
+      let ps := procs (k s) ++ stages p0 (smask s) pids in
       (* give_terminal_to(pid0) iff has_terminal && isatty && !background; K6 *)
-      let tg := c_hasterm c && c_isatty c && negb bg && group_exists p0 ps in
-      let ow := if tg then p0 else owner s in
+      let '(tg, ow, m) :=
+        if c_hasterm c && c_isatty c && negb bg
+        then give_terminal_to (group_exists p0 ps) p0 (owner s) (smask s)
+        else (false, owner s, smask s) in
       (* insert_job iff isatty (capture is false for typed lines) *)
       let sh' := if c_isatty c then mksh (Jobs.launch (ctab (k s)) p0 pids bg) (mp (shl (k s))) else shl (k s) in
       let g := if c_isatty c then gh s ++ [Launch p0 pids bg] else gh s in
       if bg then
         let o := match get_job_by_gid (tab sh') p0 with Some j => [OBgLaunch (jid j) p0] | None => [] end in
-        end_of_line (mkcore ps sh' o) ow g
-      else enter_wait c (mkcore ps sh' []) p0 pids (VLaunch tg) ow g
+        next (mkcore ps sh' (outs (k s) ++ o)) ow m g rest
+      else enter_wait c (mkcore ps sh' (outs (k s))) p0 pids (VLaunch tg) ow m g rest
   end.
 
 Fixpoint get_job_by_id (t : table) (id : Z) : option job :=
@@ -356,37 +409,39 @@ Definition find_job (t : table) (arg : option Z) (pick : Z) : option job :=
 
 Definition quiet (k : core) : core := mkcore (procs k) (shl k) [].
 
-Definition do_fg (c : cfg) (s : st) (arg : option Z) (pick : Z) : st :=
-  let k0 := quiet (k s) in
+Definition do_fg (c : cfg) (s : st) (arg : option Z) (pick : Z) (rest : list cmd) : st :=
+  let k0 := k s in
   match ctab k0 with
-  | [] => end_of_line (say k0 [ONoJob]) (owner s) (gh s)
+  | [] => next (say k0 [ONoJob]) (owner s) (smask s) (gh s) rest
   | _ =>
       match find_job (ctab k0) arg pick with
-      | None => end_of_line (say k0 [ONoSuch]) (owner s) (gh s)
+      | None => next (say k0 [ONoSuch]) (owner s) (smask s) (gh s) rest
       | Some j =>
           let k1 := say k0 [OFgCmd (jid j)] in
-          if group_exists (jgid j) (procs k1) then
+          (* give_terminal_to(job.gid): fails when no unreaped process has that group (K6) *)
+          let '(given, ow, m) := give_terminal_to (group_exists (jgid j) (procs k1)) (jgid j) (owner s) (smask s) in
+          if given then
             let ps := on_group (deliver SIGCONT) (jgid j) (procs k1) in
             let k2 := mkcore ps (mksh (sh_mark_job_as_running (ctab k1) (jgid j) false) (mp (shl k1))) (outs k1) in
-            enter_wait c k2 (jgid j) (jpids j) VFg (jgid j) (gh s)
-          else end_of_line k1 (owner s) (gh s)
+            enter_wait c k2 (jgid j) (jpids j) VFg ow m (gh s) rest
+          else next k1 ow m (gh s) rest
       end
   end.
 
-Definition do_bg (s : st) (arg : option Z) (pick : Z) : st :=
-  let k0 := quiet (k s) in
+Definition do_bg (s : st) (arg : option Z) (pick : Z) (rest : list cmd) : st :=
+  let k0 := k s in
   match ctab k0 with
-  | [] => end_of_line (say k0 [ONoJob]) (owner s) (gh s)
+  | [] => next (say k0 [ONoJob]) (owner s) (smask s) (gh s) rest
   | _ =>
       match find_job (ctab k0) arg pick with
-      | None => end_of_line (say k0 [ONoSuch]) (owner s) (gh s)
+      | None => next (say k0 [ONoSuch]) (owner s) (smask s) (gh s) rest
       | Some j =>
           let ps := on_group (deliver SIGCONT) (jgid j) (procs k0) in
           match jst j with
-          | Running => end_of_line (mkcore ps (shl k0) [OAlreadyBg (jid j)]) (owner s) (gh s)
+          | Running => next (mkcore ps (shl k0) (outs k0 ++ [OAlreadyBg (jid j)])) (owner s) (smask s) (gh s) rest
           | Stopped =>
-              end_of_line (mkcore ps (mksh (sh_mark_job_as_running (ctab k0) (jgid j) true) (mp (shl k0))) [OBgCmd (jid j)])
-                          (owner s) (gh s)
+              next (mkcore ps (mksh (sh_mark_job_as_running (ctab k0) (jgid j) true) (mp (shl k0))) (outs k0 ++ [OBgCmd (jid j)]))
+                   (owner s) (smask s) (gh s) rest
           end
       end
   end.
@@ -395,15 +450,40 @@ Definition job_line (j : job) : out :=
   OJobLine (jid j) (jgid j) (jst j) (jbg j && match jst j with Running => true | Stopped => false end).
 
 (** jobs.rs: nothing when the table is empty, else a poll without notices, then the lines *)
-Definition do_jobs (s : st) : st :=
-  let k0 := quiet (k s) in
+Definition do_jobs (s : st) (rest : list cmd) : st :=
+  let k0 := k s in
   match ctab k0 with
-  | [] => end_of_line k0 (owner s) (gh s)
+  | [] => next k0 (owner s) (smask s) (gh s) rest
   | _ => let k1 := poll false k0 in
-         end_of_line (say k1 (map job_line (ctab k1))) (owner s) (gh s ++ [Poll (fst (poll_evs k0))])
+         next (say k1 (map job_line (ctab k1))) (owner s) (smask s) (gh s ++ [Poll (fst (poll_evs k0))]) rest
   end.
 
+Definition exec (c : cfg) (s : st) (x : cmd) (rest : list cmd) : st :=
+  match x with
+  | CLaunch pids bg => launch c s pids bg rest
+  | CFg arg pick => do_fg c s arg pick rest
+  | CBg arg pick => do_bg s arg pick rest
+  | CJobs => do_jobs s rest
+  | CBuiltin => next (k s) (owner s) (smask s) (gh s) rest
+  end.
+
+(** run_command_line: the commands still to run, then the end-of-line poll;
+    stops when a command blocks in wait_fg_job *)
+Fixpoint drive (c : cfg) (fuel : nat) (s : st) : st :=
+  match fuel with
+  | O => s
+  | S f =>
+      match md s with
+      | Between [] => end_of_line (k s) (owner s) (smask s) (gh s)
+      | Between (x :: r) => drive c f (exec c s x r)
+      | _ => s
+      end
+  end.
+
+Definition drive_all (c : cfg) (s : st) : st := drive c (S (length (rest_of (md s)))) s.
+
 Inductive action :=
+| ALine (cmds : list cmd)       (* a typed line [c1 ; c2 ; ..] *)
 | ALaunch (pids : list Z) (bg : bool)
 | AFg (arg : option Z) (pick : Z)
 | ABg (arg : option Z) (pick : Z)
@@ -415,10 +495,23 @@ Inductive action :=
 | EExit (pid code : Z)    (* a process ends by itself *)
 | ESig (pid sig : Z).     (* a signal sent to one process from outside *)
 
-Definition clear (s : st) : st := mkst (quiet (k s)) (md s) (owner s) (gh s) (wevs s).
+(** the typed lines as command lists *)
+Definition cmds_of (a : action) : option (list cmd) :=
+  match a with
+  | ALine l => Some l
+  | ALaunch pids bg => Some [CLaunch pids bg]
+  | AFg arg pick => Some [CFg arg pick]
+  | ABg arg pick => Some [CBg arg pick]
+  | AJobs => Some [CJobs]
+  | AEmpty => Some []
+  | ABuiltin => Some [CBuiltin]
+  | _ => None
+  end.
+
+Definition clear (s : st) : st := mkst (quiet (k s)) (md s) (owner s) (smask s) (gh s) (wevs s).
 
 Definition kernel (c : cfg) (s : st) (f : list proc -> list proc) : st :=
-  settle_all c (mkst (mkcore (f (procs (k s))) (shl (k s)) []) (md s) (owner s) (gh s) (wevs s)).
+  drive_all c (settle_all c (mkst (mkcore (f (procs (k s))) (shl (k s)) []) (md s) (owner s) (smask s) (gh s) (wevs s))).
 
 (** K7: a key that raises a signal (terminal in cooked mode, that is while the
     shell is not reading a line) sends it to every process of the terminal's
@@ -432,30 +525,29 @@ Definition kernel (c : cfg) (s : st) (f : list proc -> list proc) : st :=
 Definition key (c : cfg) (s : st) (sig : Z) : st :=
   match md s with
   | AtPrompt => clear s
-  | Waiting _ _ _ _ => kernel c s (on_group (deliver sig) (owner s))
+  | _ => kernel c s (on_group (deliver sig) (owner s))
   end.
 
-Definition typed (s : st) (f : st -> st) : st :=
+Definition typed_line (c : cfg) (s : st) (l : list cmd) : st :=
   match md s with
-  | AtPrompt => f s
-  | Waiting _ _ _ _ => clear s
+  | AtPrompt => drive_all c (mkst (quiet (k s)) (Between l) (owner s) (smask s) (gh s) [])
+  | _ => clear s
   end.
 
 Definition step (c : cfg) (s : st) (a : action) : st :=
-  match a with
-  | ALaunch pids bg => typed s (fun s => launch c s pids bg)
-  | AFg arg pick => typed s (fun s => do_fg c s arg pick)
-  | ABg arg pick => typed s (fun s => do_bg s arg pick)
-  | AJobs => typed s do_jobs
-  | AEmpty => typed s (fun s => end_of_line (quiet (k s)) (owner s) (gh s))
-  | ABuiltin => typed s (fun s => end_of_line (quiet (k s)) (owner s) (gh s))
-  | ACtrlZ => key c s SIGTSTP
-  | ACtrlC => key c s SIGINT
-  | EExit pid code => kernel c s (on_pid (do_exit code) pid)
-  | ESig pid sig => kernel c s (on_pid (deliver sig) pid)
+  match cmds_of a with
+  | Some l => typed_line c s l
+  | None =>
+      match a with
+      | ACtrlZ => key c s SIGTSTP
+      | ACtrlC => key c s SIGINT
+      | EExit pid code => kernel c s (on_pid (do_exit code) pid)
+      | ESig pid sig => kernel c s (on_pid (deliver sig) pid)
+      | _ => s
+      end
   end.
 
-Definition init (c : cfg) : st := mkst (mkcore [] empty_shell []) AtPrompt (c_sh c) [] [].
+Definition init (c : cfg) : st := mkst (mkcore [] empty_shell []) AtPrompt (c_sh c) false [] [].
 
 Definition run (c : cfg) (acts : list action) : st := fold_left (step c) acts (init c).
 
